@@ -451,16 +451,24 @@ def rdEntries : Nat → Bytes → List Row → Except Err (List Row × List Byte
       match rdString r0 with
       | .error e => .error e
       | .ok (nm, r1) =>
-        match rdI32s 4 r1 with
-        | .ok ([r, g, b, t], r2) =>
-          match setRow ctab idx r g b t with
-          | .error e => .error e
-          | .ok ctab' =>
-            match rdEntries k r2 ctab' with
-            | .ok (ctabF, nms) => .ok (ctabF, stripNul nm :: nms)
-            | .error e => .error e
-        | .ok _ => .error .short
+        match rdI32 r1 with
         | .error e => .error e
+        | .ok (r, q1) =>
+          match rdI32 q1 with
+          | .error e => .error e
+          | .ok (g, q2) =>
+            match rdI32 q2 with
+            | .error e => .error e
+            | .ok (b, q3) =>
+              match rdI32 q3 with
+              | .error e => .error e
+              | .ok (t, r2) =>
+                match setRow ctab idx r g b t with
+                | .error e => .error e
+                | .ok ctab' =>
+                  match rdEntries k r2 ctab' with
+                  | .ok (ctabF, nms) => .ok (ctabF, stripNul nm :: nms)
+                  | .error e => .error e
 
 /-- stable argsort (NumPy's default sort is not stable; the two agree when the values are pairwise
     distinct, which is the property's domain): pairs `(value, row)` sorted by value -/
@@ -648,8 +656,18 @@ def readMgh (bs : Bytes) : Except Err (MghHdr × List Nat) :=
   match rdU32 bs with
   | .error e => .error e
   | .ok (version, r0) =>
-    match rdU32s 4 r0 with
-    | .ok ([x, y, z, f], r1) =>
+    match rdU32 r0 with
+    | .error e => .error e
+    | .ok (x, q1) =>
+    match rdU32 q1 with
+    | .error e => .error e
+    | .ok (y, q2) =>
+    match rdU32 q2 with
+    | .error e => .error e
+    | .ok (z, q3) =>
+    match rdU32 q3 with
+    | .error e => .error e
+    | .ok (f, r1) =>
       if x = 0 ∨ y = 0 ∨ z = 0 ∨ f = 0 then .error .mgh else
       match rdU32 r1 with
       | .error e => .error e
@@ -670,8 +688,6 @@ def readMgh (bs : Bytes) : Except Err (MghHdr × List Nat) :=
               match rdWs bpv d.prod (bs.drop dataOffset) with
               | .error e => .error e
               | .ok data => .ok (⟨d, code, delta', ftr⟩, data)
-    | .ok _ => .error .short
-    | .error e => .error e
 
 /-- `hdr[field] = value` for the footer fields, index 0..4 -/
 def setFtr (h : MghHdr) (sets : List (Nat × Nat)) : MghHdr :=
